@@ -81,6 +81,31 @@ def stamping_rule(prog, run, rid):
     run.ob(rid, "the stamped record is entered into the table once", sl.site, added_ok)
 
 
+def list_total_rule(prog, run, rid, maxn=4):
+    """MemoryLeakDetectorList::getTotalLeaks folded on every list of 0..maxn records x every in-period pattern: the count is
+    the number of records of the period, wherever they stand (shared with C07: the per-test verdict is this count)"""
+    gt = prog.fn(LST + "::getTotalLeaks")
+    run.analysed(gt)
+    LINL = {g.qn for g in prog.functions.values() if g.qn.startswith(LST + "::")}
+    bad, ncase = None, 0
+    for n in range(0, maxn + 1):
+        for pat in itertools.product((0, 1), repeat=n):
+            ncase += 1
+            ev = Evaluator(prog, gt, env=dict(list_env(n, {}), **{gt.params[0]["name"]: 7}))
+            ev.heap_mode = True
+            ev.inline = LINL
+            ev.calls[LST + "::isInPeriod"] = lambda node, period, pat=pat: pat[node - 1] if node and 1 <= node <= len(pat) else None
+            try:
+                ev.run_blocks(gt.entry, max_steps=1500)
+                got = getattr(ev, "ret", None)
+            except Unknown as u:
+                got = "unknown: %s" % u
+            if got != sum(pat) and bad is None:
+                bad = "list of %d records with in-period pattern %s: counts %s, %d records are of the period" % (n, list(pat), got, sum(pat))
+    run.ob(rid, "the per-bucket leak count (getTotalLeaks) folded on %d lists: exactly the records of the asked period are counted, wherever they stand in the list" % ncase, gt.site, bad is None, witness=bad or "%d lists" % ncase,
+           what="" if bad is None else "records of other tests / periods are charged to this one (or leaks are missed): " + bad)
+
+
 def table_walk_rules(prog, run, r_agree, r_cover, only=None):
     """bucket agreement (r_agree) and coverage (r_cover) of the leak table, decided by folding every table method against
     recording bucket stubs. `only`: restrict to the named table methods (C07 re-uses the leak walkers)."""
